@@ -413,6 +413,9 @@ def release_levels_loop(E, st, fr, kind, src):
 def base_engine(E, inline_all=True):
     stubs.install_all(E)
     E.rare_oserrors = True
+    # preconditions of the kernel stubs (flock / close on an OPEN descriptor of ours) decide C02 as well: a
+    # descriptor number used after close() may by then belong to somebody else's lock
+    E.stub_props = frozenset({'C12', 'C02'})
     E.me = z3.Const('me', stubs.ThreadS)
     # platform selection at import time (checked on the real module by the conformance run):
     # fcntl imports, msvcrt does not -> FileLock is UnixFileLock
@@ -455,7 +458,7 @@ def frame_obligations(E, o, qual):
     fl = E.builtins['__fcntl_consts__']
     import os as _os
     bad = [e for e in E.effects if e[0] not in ALLOWED_EFFECTS]
-    E.oblige('%s/frame.world_effects_within_{open,flock,close,sleep}' % qual, len(bad) == 0, props={'C13'},
+    E.oblige('%s/frame.world_effects_within_{open,flock,close,sleep}' % qual, len(bad) == 0, props={'C13', 'C02'},
              detail='offending effects: %r' % ([b[0] for b in bad],))
     for e in E.effects:
         if e[0] == 'os.open':
@@ -675,7 +678,24 @@ def t_del(E):
         return z3.Implies(v0['mine'], z3.And(v1['fd_none'], v1['depth'] == 0, v1['counter'] == 0))
     spec = Spec(f.qualname, params=[('self', None)], pre=release_pre(),
                 post={'return': [('finaliser_force_releases_everything', {'C12'}, post)]})
-    E.run_paths(lambda: prove(E, spec, f, lambda E: Args(dict(self=mk_self(E)))))
+    a = {}
+
+    def setup(E):
+        a['args'] = Args(dict(self=mk_self(E)))
+        return a['args']
+
+    def body():
+        a.clear()
+        try:
+            prove(E, spec, f, setup)
+        finally:
+            if 'args' in a:
+                # the finaliser too touches nothing but the lock protocol: removing or renaming the lock file lets a
+                # waiter lock the orphaned inode while newcomers lock a new file of the same name (C02, C13)
+                bad = [e for e in E.effects if e[0] not in ALLOWED_EFFECTS]
+                E.oblige('%s/frame.world_effects_within_{open,flock,close,sleep}' % f.qualname, len(bad) == 0,
+                         props={'C13', 'C02', 'C12'}, detail='offending effects: %r' % ([b[0] for b in bad],))
+    E.run_paths(body)
 
 
 def t_init(E):
@@ -756,6 +776,6 @@ TASKS = {
     'filelock.__enter__': (t_enter, {'C02', 'C12'}),
     'filelock.__exit__': (t_exit, {'C02', 'C12'}),
     'filelock.acquire_ctx': (t_acquire_ctx, {'C02', 'C12'}),
-    'filelock.__del__': (t_del, {'C12'}),
+    'filelock.__del__': (t_del, {'C12', 'C02', 'C13'}),
     'filelock.lemmas': (t_lemmas, {'C02', 'C13'}),
 }
